@@ -47,6 +47,7 @@ Definition satb (w : total) (ins : instr F) : bool :=
   | IAdd _ _ xa xb xc ql qr qc => sparse_b w xa xb xc ql qr (opp 1) 0 qc
   | IBool _ _ xa ql qm => sparse_b w xa xa xa ql 0 0 qm 0
   | IHint _ _ _ _ _ => true
+  | ILookup _ _ _ _ => true
   end.
 
 Definition lexp_wires (l : lexp F) : list nat := map snd l.
@@ -64,6 +65,7 @@ Definition wires_of (ins : instr F) : list nat :=
   | IAdd _ _ xa xb xc ql qr _ => sparse_wires xa xb xc ql qr (opp 1) 0
   | IBool _ _ xa ql qm => sparse_wires xa xa xa ql 0 0 qm
   | IHint _ _ _ _ _ => []
+  | ILookup _ _ _ _ => []
   end.
 
 Definition agree_on (ws : list nat) (w w' : total) : Prop := forall x, In x ws -> w x = w' x.
@@ -93,7 +95,7 @@ Qed.
 
 Lemma satb_agree w w' ins : agree_on (wires_of ins) w w' -> satb w ins = satb w' ins.
 Proof.
-  destruct ins as [cid l r o|cid xa xb xc ql qr qo qm qc cm|cid xa xb xc qm|cid xa xb xc ql qr qc|cid xa ql qm|hid ins start nout];
+  destruct ins as [cid l r o|cid xa xb xc ql qr qo qm qc cm|cid xa xb xc qm|cid xa xb xc ql qr qc|cid xa ql qm|hid ins start nout|entries ins start];
     cbn [satb wires_of]; intros A; try reflexivity.
   - rewrite (evt_agree w w' l), (evt_agree w w' r), (evt_agree w w' o); [reflexivity| | |];
       intros x Hx; apply A; rewrite !in_app_iff; auto.
